@@ -78,6 +78,23 @@ def oracle(ctx, case, real, rt):
                 if kk in s:
                     collect(s[kk])
     collect(prog)
+    # every program serializer runs exactly once per declared field of a delivered message (and at most once per field of
+    # one that failed)
+    lo = hi = 0
+    delivered_keys = set(delivered)
+    for m, has_ser, declared, tagging in writes:
+        if not has_ser or not tagging:
+            continue
+        n = sum(1 for k in tagging if k in m)
+        if key_of(m) in delivered_keys:
+            lo += n
+            hi += n
+        else:
+            hi += n
+    if not (lo <= rt.ser_calls <= hi):
+        ctx.violation("the program's field serializers were called %d times; the typed messages written account for between %d and %d calls "
+                      "(once per declared field of a delivered message)" % (rt.ser_calls, lo, hi), case)
+        return
     i = 0
     while i < len(writes):
         m, has_ser, declared, tagging = writes[i]
@@ -97,7 +114,7 @@ def oracle(ctx, case, real, rt):
             g = got[0]
             for k in tagging or []:
                 gv = g.get(k)
-                if k in m and not (isinstance(gv, dict) and "ser" in gv):
+                if k in m and k not in gl and not (isinstance(gv, dict) and "ser" in gv):  # (a global field of that name wins: C12)
                     ctx.violation("declared field %r of a typed message was delivered as logged (%s), not as its serializer's output" % (k, canon(gv)), case)
                     return
             extra_keys = [k for k in g if k not in m and k not in gl]
@@ -211,6 +228,12 @@ def direct_writes(ctx, i):
                         m.write(rng.choice([None, logger, mem]))
             except BaseException as e:  # noqa
                 problems.append("write raised %s" % type(e).__name__)
+            if rng.random() < 0.35:
+                # the test logger validates (and thereby serializes) what it holds: that must not reach the callers' dictionaries
+                try:
+                    mem.validate()
+                except BaseException:  # noqa: a ValidationError is the business of C14
+                    pass
             for dd, ss in held:
                 if dd != ss:
                     problems.append("a dictionary passed to a logger's write was modified (step %d)" % step)
